@@ -10,6 +10,7 @@ import (
 	"sort"
 	"strconv"
 	"strings"
+	"sync"
 	"time"
 
 	"verif/engine/interp"
@@ -74,8 +75,14 @@ func cmdRun(args []string) int {
 	finalz3 := fs.Bool("finalz3", true, "confirm every path with the solver")
 	z3all := fs.Bool("z3all", false, "re-check all domain decisions with z3")
 	solver := fs.String("solver", "z3", "z3|z3-new|cvc5")
+	nola := fs.Bool("nolookahead", false, "disable switch reconstruction")
 	fs.Parse(args)
-	r, err := NewRunner("run", nil, only)
+	gen, _, gerr := genWalkSource()
+	if gerr != nil {
+		fmt.Fprintln(os.Stderr, "ERROR:", gerr)
+		return 2
+	}
+	r, err := NewRunner("run", map[string][]byte{repoDir + "/zz_verif_gen_walk.go": gen}, only)
 	if err != nil {
 		fmt.Fprintln(os.Stderr, "ERROR:", err)
 		return 2
@@ -85,6 +92,18 @@ func cmdRun(args []string) int {
 	r.Eng.FinalZ3 = *finalz3
 	r.Eng.Z3All = *z3all
 	r.Eng.SolverCmd = *solver
+	r.Eng.NoLookahead = *nola
+	interp.LookaheadDebug = os.Getenv("VERIF_LADEBUG") != ""
+	if os.Getenv("VERIF_FORKLOG") != "" {
+		var mu sync.Mutex
+		cnt := map[string]int{}
+		interp.ForkLog = func(kind, site string) { mu.Lock(); cnt[kind+" "+site]++; mu.Unlock() }
+		defer func() {
+			for k, v := range cnt {
+				fmt.Printf("FORK %6d %s\n", v, k)
+			}
+		}()
+	}
 	job := &interp.Job{Entry: *entry, Params: parseParams(params), MaxPaths: *maxPaths, Fuel: *fuel}
 	var results []*interp.PathResult
 	st := r.Eng.Explore(job, func(pr *interp.PathResult) {
@@ -225,6 +244,7 @@ func cmdCheck(args []string) int {
 	c.Workers = *workers
 	r.Eng.Workers = *workers
 	r.Eng.Seed = seed
+	r.Eng.NoLookahead = os.Getenv("VERIF_NOLOOKAHEAD") != ""
 	if p.level != "" {
 		c.Level = p.level
 	}
